@@ -160,8 +160,79 @@ def free_running(tier):
                     runs += 1
                     if got != exp:
                         bad.append({"harness": h, "poolsize": w, "rep": rep})
+        r2, b2 = parallel_kernels(tier)
+        runs += r2
+        bad.extend(b2)
     finally:
         sys.setswitchinterval(old)
+    return runs, bad
+
+
+def parallel_kernels(tier):
+    """The GIL-releasing kernels running GENUINELY in parallel (the part the cooperative scheduler cannot interleave): (a) four real threads each
+    merging large arrays through every kernel at once, each result compared with NumPy's set operation; (b) a 200 000-row cube with 12 sub-cubes on the real
+    pool compared with its serial run.  Sampling; a kernel that keeps any state outside its arguments fails here with near certainty."""
+    import threading
+
+    import numpy
+
+    import catii.set_operations as so
+    from catii.ccubes import ccube
+    from catii.iindexes import iindex
+
+    bad = []
+    runs = 0
+    n = 400000
+    base = numpy.arange(n, dtype=numpy.uint32)
+    inputs = []
+    for t in range(4):
+        a = base[(base * (t + 3)) % 7 < 4].copy()
+        b = base[(base * (t + 5)) % 11 < 6].copy()
+        c = base[(base + t) % 13 < 2].copy()
+        inputs.append((a, b, c))
+    want = [(numpy.intersect1d(a, b, assume_unique=True), numpy.union1d(a, b), numpy.setdiff1d(a, b, assume_unique=True), numpy.union1d(numpy.union1d(a, b), c))
+            for a, b, c in inputs]
+    reps = 3 if tier == "quick" else 20
+    errs = []
+
+    def work(t):
+        a, b, c = inputs[t]
+        for rep in range(reps):
+            try:
+                got = (so.set_intersect_merge_np(a, b), so.set_union_merge_np(a, b), so.set_difference_merge_np(a, b), so.set_union_merge_many([a, b, c]))
+                for name, g, w in zip(("intersect", "union", "difference", "union_many"), got, want[t]):
+                    if g.shape != w.shape or not numpy.array_equal(g, w):
+                        errs.append({"harness": "kernels-in-parallel", "poolsize": 4, "rep": rep, "kernel": name})
+            except Exception as e:  # noqa
+                errs.append({"harness": "kernels-in-parallel", "poolsize": 4, "rep": rep, "error": repr(e)})
+
+    ths = [threading.Thread(target=work, args=(t,)) for t in range(4)]
+    for th in ths:
+        th.start()
+    for th in ths:
+        th.join()
+    runs += 4 * reps
+    bad.extend(errs[:3])
+    # (b) a large cube on the real pool
+    N = 200000
+    r = numpy.arange(N, dtype=numpy.int64)
+    d1 = ((r * 7 + r // 3) % 5 == 0).astype(numpy.int64) + ((r % 11) == 3).astype(numpy.int64)
+    d2 = numpy.stack([((r * (k + 2) + k) % (k + 3) == 0).astype(numpy.int64) * (1 + (r % 2)) for k in range(12)], axis=1)
+    i1, i2 = iindex.from_array(d1), iindex.from_array(d2)
+    from catii import ffuncs
+
+    w = (r % 5).astype(float)
+    serial = ccube([i1, i2], interacting_shape=(3, 3))
+    serial.parallel = False
+    exp = harness.freeze(serial.calculate([ffuncs.ffunc_count(), ffuncs.ffunc_sum(w)]))
+    for rep in range(2 if tier == "quick" else 10):
+        cube = ccube([i1, i2], interacting_shape=(3, 3))
+        cube.parallel = True
+        cube.poolsize = 4
+        got = harness.freeze(cube.calculate([ffuncs.ffunc_count(), ffuncs.ffunc_sum(w)]))
+        runs += 1
+        if got != exp:
+            bad.append({"harness": "big-ccube-12-subcubes", "poolsize": 4, "rep": rep})
     return runs, bad
 
 
